@@ -281,4 +281,12 @@ def run(ctx, prog):
     snap_sites = [bb for bb, cbs in lm.sync_calls.get(ct.id, {}).items() for cb in cbs if cb.id in lm.ret_guard and lm.ret_guard[cb.id][0] == SNAP]
     ctx.inst('C09.R5', ct.short, 'snapshot_lock taken before any canonical lock', bool(snap_sites) and all(ct.dominates(s, first_canon) for s in snap_sites),
              'snapshot_lock acquired at %s; first canonical acquisition at %s' % ([ct.loc_of(s) for s in snap_sites], ct.loc_of(first_canon) if first_canon < 10 ** 9 else '?'))
+
+    # ------------------------------------------------------------------ R6
+    ctx.rule('C09.R6', 'log order = apply order: in every mutator the slot lookup (shared doc_store acquisition), every WalWriter::append[_batch] and the in-memory apply '
+                       '(exclusive doc_store acquisition) happen inside ONE critical section of the write gate — the same acquisition is held at all of them. Replay '
+                       'applies entries in file order, so a writer that releases the gate between its append and its apply can be overtaken by another writer of the '
+                       'same id: the live collection ends with one version, the restart with the other (and both start from the same overwritten slot)')
+    n_sec = gate_sections(ctx, prog, lm, 'C09.R6')
+    ctx.floor('C09.R6', 'log appends inside the write-gate section of the mutators', n_sec, 5, 'insert ×2 (entry, compensating delete), delete, update_metadata, batch_delete')
     ctx.stat('functions_analysed', len(set(i['key'].split(' | ')[1] for i in ctx.instances)))
